@@ -283,12 +283,27 @@ def rep_rule(ctx, chk):
     sadt = P.adts.get("util::interpreter_util::State")
     vname = {i: v["name"] for i, v in enumerate(sadt["variants"])}
     ai = arch_index(P)
+    PREFIXES = ("rep", "repz", "repe", "repnz", "repne")
+    cases = []
     for k, p in enumerate(G.productions("string")):
         terms = [s["name"].strip('"') for s in p["symbols"] if s["t"] == "term"]
-        if not terms:
+        if terms:
+            if terms[0].lower() in PREFIXES:
+                cases.append((k, p, terms[0], {}))
             continue
-        prefix = terms[0]
-        label = G.prod_label("string", k)
+        # the prefix may be chosen by a nonterminal of its own (`rep_prefix`): one case per alternative of it
+        for sy in p["symbols"]:
+            if sy["t"] != "nt" or sy["name"] not in G.nts:
+                continue
+            alts = G.productions(sy["name"])
+            spell = [[x["name"].strip('"') for x in a["symbols"]] if all(x["t"] == "term" for x in a["symbols"]) else None for a in alts]
+            if alts and all(sp is not None and len(sp) == 1 and sp[0].lower() in PREFIXES for sp in spell):
+                for kk, sp in enumerate(spell):
+                    cases.append((k, p, sp[0], {sy["name"]: kk}))
+                break
+    for k, p, prefix, extra in cases:
+        prefix = prefix.lower()
+        label = G.prod_label("string", k) + (f" [{prefix}]" if extra else "")
         where = f"{G.g['file']}:{p['line']}"
         # the body: `movs byte` (it writes memory, moves both pointers and leaves the flags alone, so that the ZF the
         # conditional prefixes test is the incoming one).  The table nonterminal is found by shape (string_table), so
@@ -297,7 +312,9 @@ def rep_rule(ctx, chk):
         table_nts = getattr(string_table, "nts", set())
         movs_k = tab.get(("movs", "byte"), (0, None))[0]
 
-        def chooser(path, n, prods, movs_k=movs_k, table_nts=table_nts):
+        def chooser(path, n, prods, movs_k=movs_k, table_nts=table_nts, extra=extra):
+            if n in extra:
+                return extra[n]
             return movs_k if n in table_nts else None
 
         def with_cx(lo, hi):
